@@ -437,8 +437,9 @@ func runC11(c *Ctx) {
 			ok = okG && a == "$0.dirErrors" && normExpr(rir, []string{c.exprDesc(ups[0].Common().Args[0])})[0] == "$0.watch"
 			// refresh happens when update said true
 			refs := c.callsTo(rir, false, "cdi", "(*Cache).refresh")
-			if len(refs) >= 1 && len(refs) <= 2 {
+			if len(refs) >= 1 && len(refs) <= 3 {
 				var es []ir.Edge
+				rescanEdges := 0
 				for _, iff := range ir.Ifs(rir) {
 					if iff.Cond == ups[0].Value() {
 						es = append(es, ir.Edge{From: iff.Block(), Succ: 0})
@@ -446,7 +447,20 @@ func runC11(c *Ctx) {
 					if iff.Cond == ssa.Value(rir.Params[1]) {
 						es = append(es, ir.Edge{From: iff.Block(), Succ: 0})
 					}
+					// "the last scan ran out of descriptors" (C20.7) also asks for a scan; it is
+					// consulted in auto-refresh mode only, after update has been given its turn
+					if normExpr(rir, []string{c.exprDesc(iff.Cond)})[0] == "$0.rescan" {
+						gs := normExpr(rir, c.exprGuardsOf(rir, iff))
+						sort.Strings(gs)
+						if strings.Join(gs, " & ") == "!$1 & !(*watch).update($0.watch,$0.dirErrors,nil) & $0.autoRefresh" || strings.Join(gs, " & ") == "!$1 & !(*watch).update($0.watch,$0.dirErrors) & $0.autoRefresh" {
+							rescanEdges++
+							es = append(es, ir.Edge{From: iff.Block(), Succ: 0})
+						} else {
+							ok = false
+						}
+					}
 				}
+				nWant := 2 + rescanEdges
 				// each of the two deciding edges leads to a refresh, and no refresh is
 				// reached any other way
 				for _, e := range es {
@@ -459,7 +473,7 @@ func runC11(c *Ctx) {
 					}
 					ok = ok && reach
 				}
-				ok = ok && len(es) == 2
+				ok = ok && len(es) == nWant && rescanEdges <= 1
 				for _, ref := range refs {
 					ok = ok && ir.OnlyViaEdges(rir, ref.(ssa.Instruction), es)
 				}
